@@ -15,10 +15,12 @@ VERIF = os.path.dirname(os.path.dirname(os.path.abspath(__file__)))
 sys.path.insert(0, os.path.join(VERIF, "tools"))
 import build as B  # noqa: E402
 
-BIN = os.path.join(VERIF, "build", "bin")
-SCRATCH = os.path.join(VERIF, "build", "scratch")
-REPLAYS = os.path.join(VERIF, "replays")
-EVID = os.path.join(VERIF, "evidence")
+_TAG = ("-" + os.environ["VERIF_BIN_TAG"]) if os.environ.get("VERIF_BIN_TAG") else ""
+BIN = os.path.join(VERIF, "build", "bin" + _TAG)
+SCRATCH = os.path.join(VERIF, "build", "scratch" + _TAG)
+# a tagged run (self-tests on scratch trees) keeps its replay and evidence files out of the committed directories
+REPLAYS = os.path.join(VERIF, "build", "replays" + _TAG) if _TAG else os.path.join(VERIF, "replays")
+EVID = os.path.join(VERIF, "build", "evidence" + _TAG) if _TAG else os.path.join(VERIF, "evidence")
 
 # per property: harness binaries with (share of the run-time budget, knobs that may be shrunk towards their minimum)
 PROPS = {
